@@ -173,7 +173,7 @@ def run_case(case, reports=False, keep_objects=False):
 
         args = ["-f", "rec", "-o", os.devnull]
         if reports:
-            for i, fm in enumerate(case.get("formats", ["json", "plain", "progress2", "progress3", "rerun"])):
+            for i, fm in enumerate(case.get("formats", ["json", "plain", "progress", "progress2", "progress3", "rerun"])):
                 args += ["-f", fm, "-o", os.path.join(outdir, "out_%s.txt" % fm.replace(".", "_"))]
             args += ["--junit", "--junit-directory", os.path.join(outdir, "junit")]
             args += ["--summary"]
